@@ -311,6 +311,8 @@ class Interp:
         b = self.ev(n[2], env)
         if not (is_int(a) and is_int(b)):
             raise Decline("range of non-ints")
+        if b - a > 3000:
+            raise Decline("value blow-up")
         return list(range(a, b + 1))
 
     def e_print(self, n, env):
